@@ -56,8 +56,10 @@ partial def handle (op : String) (arg : Sexp) : String :=
     | some e, some rows => judgeRows (rows.map (fun r => eval e r)) (rows.map (fun _ => true)) impl
     | none, _ => "unsupported"
     | _, _ => "bad-op"
-  | "evalrows-inlist-constant-case", a => handle "evalrows" a
-  | "evalsel-inlist-constant-case", a => handle "evalsel" a
+  | "evalrows-inlist-case-element", a => handle "evalrows" a
+  | "evalsel-inlist-case-element", a => handle "evalsel" a
+  | "evalrows-neg-of-constant", a => handle "evalrows" a
+  | "evalsel-neg-of-constant", a => handle "evalsel" a
   | "evalsel", .list [e, .list rows, .list mask, impl] =>
     match parseExpr e, rows.mapM parseRow, mask.mapM Sexp.asBool? with
     | some e, some rows, some mask => judgeRows (rows.map (fun r => eval e r)) mask impl
